@@ -2,7 +2,7 @@
    the C19/ files; Print Assumptions is evaluated by ./check on every run. *)
 From Coq Require Import List ZArith Bool Permutation.
 From TskVerif Require Import Base.Common C19.Model C19.IbdAlg C19.RunsProofs C19.StoreProofs
-  C19.SpecProofs C19.AlgProofs C19.SliceProofs C19.RefineProofs C19.TwoPos C19.FullProofs C19.GroupProofs C19.TotalProofs.
+  C19.SpecProofs C19.AlgProofs C19.SliceProofs C19.RefineProofs C19.TwoPos C19.FullProofs C19.GroupProofs C19.TotalProofs C19.FacadeProofs C19.StoreSpec.
 Import ListNotations.
 Open Scope Z_scope.
 
@@ -248,3 +248,77 @@ Theorem requested_is_spec_requested :
   forall c ssid a b, init_ssid c = Ok ssid -> a <> b ->
     requested (is_between c) ssid a b = pair_requested c a b.
 Proof. exact requested_is_pair_requested. Qed.
+
+(* ---- what tskit checks on entry vs. what the refinement theorem assumes ---------------------------- *)
+
+(* case_valid = [integrity0: what tsk_table_collection_check_integrity(self, 0) checks since fix e0eff6d]
+              && [sorted_and_tree: edges sorted by parent time, one parent per node and position —
+                  NOT checked with options 0; guaranteed for a TreeSequence, only documented for a
+                  TableCollection] && [args_ok: the finder's own argument checks] *)
+Theorem case_valid_decomposition :
+  forall c, case_valid c = integrity0 c && sorted_and_tree c && args_ok c.
+Proof. exact case_valid_decomposition_lemma. Qed.
+
+(* the entry check + argument checks alone give memory safety and normal termination of the sweep *)
+Theorem integrity_implies_safe :
+  forall c, integrity0 c = true -> args_ok c = true -> exists out, ibd_records c = Ok out.
+Proof. exact integrity_implies_safe_lemma. Qed.
+
+(* ... but not correctness: finding C19-unsorted-tables (integrity-clean, unsorted edges: silently wrong) *)
+Theorem unsorted_integrity_clean_refuted :
+  integrity0 unsorted_case = true /\ args_ok unsorted_case = true /\ sorted_and_tree unsorted_case = false /\
+  ibd_records unsorted_case = Ok [] /\
+  ibd_spec unsorted_case = Ok [((0, 1), [(0, 10, 3)])].
+Proof. exact unsorted_integrity_clean_refuted_lemma. Qed.
+
+(* ---- the Python result classes (IdentitySegments / IdentitySegmentList) ------------------------------ *)
+
+Theorem facade_lookup_symmetric : forall st a b, py_getitem st a b = py_getitem st b a.
+Proof. exact facade_lookup_symmetric_lemma. Qed.
+
+(* result[(a,b)] for in-range a <> b: the summary / list of exactly the records of that unordered pair,
+   in emission order, or KeyError when there is none *)
+Theorem facade_getitem :
+  forall N sp ss rs a b,
+    let st := add_all (store_init N sp ss) rs in
+    0 <= a < N -> 0 <= b < N -> a <> b -> sp || ss = true ->
+    py_getitem st a b =
+    match pl_of ss (recs_of N (pair_to_integer a b N) rs) with Some p => PyOk p | None => PyKeyError end.
+Proof. exact facade_getitem_lemma. Qed.
+
+(* every listed pair is (a, b) with 0 <= a < b < N and can be looked up in both orders (non-empty) *)
+Theorem facade_pairs :
+  forall N sp ss rs,
+    let st := add_all (store_init N sp ss) rs in
+    sp || ss = true ->
+    Forall (fun r => 0 <= rec_a r < N /\ 0 <= rec_b r < N /\ rec_a r <> rec_b r) rs ->
+    forall a b, In (a, b) (store_keys st) ->
+      0 <= a < b /\ b < N /\ exists p, py_getitem st a b = PyOk p /\ py_getitem st b a = PyOk p /\ 1 <= py_list_len p.
+Proof. exact facade_pairs_lemma. Qed.
+
+Theorem facade_len :
+  forall st, match py_num_pairs st, py_pairs st with
+             | PyOk n, PyOk ks => n = zlen ks
+             | PyPairsNotStored, PyPairsNotStored => True
+             | _, _ => False
+             end.
+Proof. exact facade_len_lemma. Qed.
+
+(* ---- store level: the container filled by the algorithm model IS the specification's result ---------- *)
+
+(* For every valid case and every store option: ibd_alg returns a container st, ibd_spec returns r, and
+     num_segments = number of segments of r, total_span = total span of r;
+   with store_pairs or store_segments additionally
+     pairs (get_keys, in key order) = the pairs of r in the same order, num_pairs = length r,
+     row by row: the pair's key, 0 <= a < b < N, len = number of its segments, total_span = their span,
+     and with store_segments the stored list is a permutation of the specification's segments
+     (without: empty).  Combines ibd_alg_refines_spec with aggregates_consistent. *)
+Theorem store_refines_spec :
+  forall (c : case) (sp ss : bool), case_valid c = true ->
+    exists (st : store) (r : result),
+      ibd_alg c sp ss = Ok st /\ ibd_spec c = Ok r /\
+      st_n st = res_num_segments r /\ st_span st = res_total_span r /\
+      (sp || ss = true ->
+         store_keys st = map fst r /\ store_num_pairs st = res_num_pairs r /\
+         Forall2 (row_ok (num_nodes c) ss) (st_map st) r).
+Proof. exact store_refines_spec_lemma. Qed.
